@@ -10,6 +10,10 @@ CHECKS = {
  'C03': ('A', 'exploration', '5', 'requests are aimed at both sides of every feasibility boundary the model computes from the current state (source content in each unit, free capacity of each destination well, current quantity, current concentration); decision table must-accept / must-refuse(ValueError) / do-not-care band; impossible-state invariant on every returned object', 'deterministic simulation: boundary-biased infeasible requests as the fault sequence, model-decided accept/refuse oracle'),
  'C04': ('C04', 'fault_enumeration', '5', 'complete enumeration of fault instants (injected KeyboardInterrupt / MemoryError at every traced line event of pyplate/*.py, MemoryError from every deepcopy call) for a fixed corpus of 41 operations covering every op kind and pairing form incl. naturally failing part-way ones, plus seeded histories with faults at seeded instants; after every event and every fault the value fingerprint of every live object, argument and slice, and the module config, must be unchanged, and the fault-free retry must equal the dry run', 'deterministic simulation with fault injection: sys.settrace line-level exception injection and failing-deepcopy seam, enumerated over all instants for a corpus and sampled along seeded histories; structural fingerprints of all live objects as the invariant'),
  'C07': ('A', 'exploration', '5', 'differential oracle: every plate/slice operation is re-executed well by well through the container-level API of the real library on free-standing copies and compared; wells not addressed must be fingerprint-identical; pairing rules from an independent selector model', 'deterministic simulation: seeded histories over plate geometries with a per-well differential oracle'),
+ 'C08': ('B', 'exploration', '5', 'refinement check: every seeded recipe program is executed on the real Recipe and, step by step, through the direct container/plate API (eager reference); after bake the returned dictionary must have exactly the declared and created names and every value must equal the eager fold (contents, volume, capacity, name); before bake every declared object held by the recipe must still equal its declaration; if the eager fold succeeds bake must succeed', 'deterministic simulation: seeded interleavings of intent threads over shared objects, bake() checked as a refinement of eager execution'),
+ 'C09': ('B', 'exploration', '5', 'every get_substance_used answer (seeded substances x stages x destination subsets x units) is compared with an independent per-step ledger: model snapshots of the eager reference at every step boundary plus the amounts each remove step discarded; net decrease must raise ValueError; consecutive stages must add up', 'deterministic simulation: seeded recipe programs with stage partitions, ledger oracle over the recorded history'),
+ 'C15': ('B', 'exploration', '5', 'get_container_flows and get_amount_remaining (containers and plates, per well) are compared with the ledger by role of each step (created / source / destination / both / topped up / washed); flows non-negative; in - out = change of amount remaining', 'deterministic simulation: seeded recipe programs, ledger oracle by step role'),
+ 'C16': ('B', 'exploration', '5', 'call histories over the whole Recipe API incl. illegal calls, refused bakes and calls after bake are executed beside a small reference state machine (declared, used, open stage, stage names, locked) that predicts accept / reject / RuntimeError for each call; after a successful bake len(steps), results, stages and a fixed panel of tracking answers are re-read after every further call and must not change', 'deterministic simulation: seeded API call histories checked call by call against a reference state machine'),
  'C10': ('A', 'exploration', '5', 'after every state-changing event of every run the stored volume is compared with the volumes of the contents, and a seeded panel of observers (get_volume, get_concentration, get_volumes, get_moles, get_substances, Plate.get_volume) is compared with the definition evaluated in exact arithmetic on the abstraction of the real contents', 'deterministic simulation: observers read after every event of seeded histories, compared with an exact model'),
  'C11': ('A', 'exploration', '5', 'post-condition after every dilute / fill_to event on states reached by seeded histories: only the solvent grew, target met in its own unit (model arithmetic on the real result), capacity respected, infeasible targets refused', 'deterministic simulation (history part): post-conditions on reachable states against an exact model'),
  'C17': ('A', 'exploration', '5', 'after every remove event: selected substances absent from every addressed well, every other amount bit-identical, volume equals the remaining contents, wells not addressed identical; per-well differential against Container.remove', 'deterministic simulation: seeded histories with remove events, model filter oracle'),
@@ -33,7 +37,7 @@ def main():
             'thorough_cmd': f'{PY} check.py {pid} --tier thorough',
             'evidence_file': f'evidence/{pid}.json',
             'replay_cmd_template': f'{PY} check.py {pid} --replay {{path}}',
-            'engine': eng,
+            'engine': {'C03': 'A+B', 'C07': 'A+B', 'C17': 'A+B', 'C19': 'A+B'}.get(pid, eng),
             'level_claimed': {'category': level, 'text': text, 'design_ref': f'DESIGN.md section {ref} ({pid})'},
             'level_note': 'seeded sampling of histories, not proof; trusted base: the exact reference model (sim/model.py, written from the documentation), the tolerances of DESIGN.md section 3, CPython/numpy; nothing is claimed outside the workload bounds stated there',
             'technique': tech,
@@ -51,6 +55,8 @@ def main():
         'engines': [
             {'name': 'A', 'path': 'sim/engine_a.py', 'serves_properties': sorted(p for p, c in CHECKS.items() if c[0] == 'A'),
              'kind_free_text': 'bench: seeded histories of direct-API operations on real objects, mirrored on an exact model'},
+            {'name': 'B', 'path': 'sim/engine_b.py', 'serves_properties': ['C08', 'C09', 'C15', 'C16', 'C03', 'C07', 'C17', 'C19'],
+             'kind_free_text': 'recipe programs: seeded Recipe API call histories beside an eager reference, a per-step ledger and a life-cycle reference machine'},
             {'name': 'C04', 'path': 'sim/engine_c04.py', 'serves_properties': ['C04'],
              'kind_free_text': 'fault injector: enumeration of all fault instants for a corpus + seeded histories with faults (sim/faults.py)'},
         ],
